@@ -1,6 +1,17 @@
 /-
   Bnum.Lemmas.NumConv — lemmas for C19 (`FromPrimitive` / `ToPrimitive` / `AsPrimitive`).
   All names live in `Bnum.NumC`.
+    1. integer digits: `idig w z j` = `j`-th base-`2^w` digit of the two's-complement expansion of
+       `z : Int`; `U_map_idig` (the low `n` digits denote `z mod 2^(w n)`), `idig_all_zero/_max`.
+    2. `cast_shr`: `(n >> s) as Digit` = `⌊n / 2^s⌋ mod 2^w` for signed and unsigned primitives.
+    3. the shared `from_*` loop: `fromLoop_run` (abstract digit stream, early `None`), `fromLoop_spec`
+       (succeeds iff `-2^BITS ≤ z < 2^BITS`, then holds `z mod 2^BITS`).
+    4. `UI.fromPrim_spec`, `II.fromUint_spec`, `II.fromInt_spec`, `fromPrim_spec` (`ConvOk`).
+    5. floats: `decodeFloat_eq`, `UI.fromFloat_pos/_zero/_neg/_nonfinite/_nonneg`, `negI_spec`,
+       `UI/II.fromFloat_matches`, `fromFloat_matches` (`FloatOk` against `Spec.NumC.fromFloat`);
+       reuses lean-c14's `Flt.fields`, `nan_inf_iff`, `neg_fields`, `truncOf_*`.
+    6. `toPrim_spec` (via C13's `tryToPrim_spec`: the bodies are `rfl`-equal), `toFloat_spec`,
+       `asPrim_spec`, `asFloat_spec`; driver correspondence `fromPrim_matches`, `toPrim_matches`.
 -/
 import Bnum.Model.NumConv
 import Bnum.Spec.NumConv
@@ -1123,6 +1134,128 @@ theorem fromFloat_matches {F : FloatFmt} (hF : F.Valid) {w n : Nat} (hw : 2 ≤ 
         simp only [hr, Bool.not_false, if_true]
         rfl
 end II
+
+/-- C19 `fromFloat` against the specification, both signednesses -/
+theorem fromFloat_matches {F : FloatFmt} (hF : F.Valid) {w n : Nat} (hw : 2 ≤ w) (hn : 1 ≤ n)
+    (dbg : Bool) (s : Bool) {x : Nat} (hx : x < 2 ^ F.bits) :
+    FloatOk w n (fromFloat dbg F w n s x) (Spec.NumC.fromFloat F.spec s (M w n) x) := by
+  unfold fromFloat
+  cases s
+  · exact UI.fromFloat_matches hF (by omega) hn dbg hx
+  · exact II.fromFloat_matches hF hw hn dbg hx
+
+/-! ### `ToPrimitive` / `AsPrimitive` -/
+
+/-- the `to_int!` / `to_uint!` bodies are those of the `TryFrom` impls of `convert.rs` -/
+theorem UI.toPrim_eq (w : Nat) (x : List Nat) (t : PTy) : UI.toPrim w x t = Bnum.UI.tryToPrim w x t := rfl
+theorem II.toPrim_eq (w : Nat) (x : List Nat) (t : PTy) : II.toPrim w x t = Bnum.II.tryToPrim w x t := rfl
+theorem toPrim_eq (w : Nat) (s : Bool) (x : List Nat) (t : PTy) :
+    toPrim w s x t = Bnum.tryToPrim w s x t := rfl
+
+/-- C19 `toPrim_spec`: `to_<prim>` never panics and is `Some y` with the same value exactly when
+    the value fits the primitive -/
+theorem toPrim_spec {w n : Nat} {x : List Nat} (s : Bool) (t : PTy) (hw : 1 ≤ w) (hn : 1 ≤ n)
+    (hk : 1 ≤ t.bits) (hdiv : t.bits < w ∨ ∃ c, t.bits = c * w) (hx : WF w n x) :
+    ConvOkP t (toPrim w s x t) (valOf s w x) := by
+  rw [toPrim_eq]; exact tryToPrim_spec s t hw hn hk hdiv hx
+
+/-- `to_f32` / `to_f64`: always `Some` of the C14 cast -/
+theorem toFloat_spec {F : FloatFmt} (hF : F.Valid) {w n : Nat} {x : List Nat} (s : Bool)
+    (hw : 1 ≤ w) (hn : 1 ≤ n) (dbg : Bool) (hx : WF w n x) :
+    toFloat dbg F w s x = .ok (some (Spec.intToFloat F.spec (valOf s w x))) := by
+  have hu := U_lt hx
+  unfold toFloat valOf
+  cases s
+  · simp only [Bool.false_eq_true, if_false]
+    unfold UI.toFloat floatFromBUint
+    rw [castFloatFromUint_spec hF]
+    unfold intToFloat
+    simp
+  · simp only [if_true]
+    unfold II.toFloat
+    rw [hx.1, floatFromBInt_spec hF (Nat.mul_pos hw hn) dbg hu, S_eq hx]
+    rfl
+
+/-- `AsPrimitive<f32/f64>::as_` is the C14 cast -/
+theorem asFloat_spec {F : FloatFmt} (hF : F.Valid) {w n : Nat} {x : List Nat} (s : Bool)
+    (hw : 1 ≤ w) (hn : 1 ≤ n) (dbg : Bool) (hx : WF w n x) :
+    asFloat dbg F w s x = .ok (Spec.intToFloat F.spec (valOf s w x)) := by
+  have hu := U_lt hx
+  unfold asFloat valOf
+  cases s
+  · simp only [Bool.false_eq_true, if_false]
+    unfold floatFromBUint
+    rw [castFloatFromUint_spec hF]
+    unfold intToFloat
+    simp
+  · simp only [if_true]
+    rw [hx.1, floatFromBInt_spec hF (Nat.mul_pos hw hn) dbg hu, S_eq hx]
+    rfl
+
+/-- `to_f32` / `to_f64` return `Some(self.as_())` -/
+theorem toFloat_eq_as (dbg : Bool) (F : FloatFmt) (w : Nat) (s : Bool) (x : List Nat) :
+    toFloat dbg F w s x = (asFloat dbg F w s x).map some := by
+  unfold toFloat asFloat UI.toFloat II.toFloat floatFromBUint
+  cases s <;> rfl
+
+/-- `AsPrimitive<$int>::as_` IS the `As` cast (`CastFrom`) -/
+theorem asPrim_eq_cast (w : Nat) (s : Bool) (x : List Nat) (t : PTy) :
+    asPrim w s x t = castToPrim w s x t := rfl
+
+/-- … and therefore the value modulo `2^K` -/
+theorem asPrim_spec {w n : Nat} {x : List Nat} (s : Bool) (hw : 1 ≤ w) (hn : 1 ≤ n)
+    (hx : WF w n x) (t : PTy) : asPrim w s x t = .ok (wrapU (B t.bits) (valOf s w x)) :=
+  castToPrim_spec s hw hn hx t
+
+/-! ### the answers the driver prints: model = spec -/
+
+theorem U_eq_wrapU_valOf {w n : Nat} {r : List Nat} (s : Bool) (hr : WF w n r) :
+    U w r = wrapU (M w n) (valOf s w r) := by
+  unfold valOf
+  cases s
+  · simp only [Bool.false_eq_true, if_false]
+    rw [wrapU_natCast, Nat.mod_eq_of_lt (U_lt hr)]
+  · simp only [if_true]
+    rw [S_eq hr, wrapU_toInt (U_lt hr)]
+
+theorem val_eq_wrapU {t : PTy} {q : Nat} (hq : q < B t.bits) : q = wrapU (B t.bits) (PInt.val t q) := by
+  unfold PInt.val
+  split
+  · rw [wrapU_toInt hq]
+  · rw [wrapU_natCast, Nat.mod_eq_of_lt hq]
+
+theorem rep_eq_decide (s : Bool) (m : Nat) (z : Int) : Spec.rep s m z = decide (repOf s m z) := by
+  unfold Spec.rep repOf; cases s <;> simp
+
+theorem conv_src (t : PTy) (p : Nat) :
+    (if t.signed then toInt (2 ^ t.bits) p else (p : Int)) = PInt.val t p := rfl
+
+/-- `from_<prim>`: the printed model answer is the specification's answer -/
+theorem fromPrim_matches {w n : Nat} (s : Bool) (t : PrimT) {p : Nat} (hw : 1 ≤ w) (hn : 1 ≤ n)
+    (hp : p < B t.ty.bits) :
+    (fromPrim w n s t p).map (Option.map (U w))
+      = .ok (Spec.NumC.conv t.ty.signed (2 ^ t.ty.bits) p s (M w n)) := by
+  unfold Spec.NumC.conv
+  simp only [conv_src, rep_eq_decide]
+  rcases fromPrim_spec s t hw hn hp with ⟨h1, r, h2, h3, h4⟩ | ⟨h1, h2⟩
+  · rw [h2, if_pos (decide_eq_true h1), ← h4, ← U_eq_wrapU_valOf s h3]; rfl
+  · rw [h2, if_neg (by simpa using h1)]; rfl
+
+/-- `to_<prim>`: the printed model answer is the specification's answer -/
+theorem toPrim_matches {w n : Nat} {x : List Nat} (s : Bool) (t : PTy) (hw : 1 ≤ w) (hn : 1 ≤ n)
+    (hk : 1 ≤ t.bits) (hdiv : t.bits < w ∨ ∃ c, t.bits = c * w) (hx : WF w n x) :
+    toPrim w s x t = .ok (Spec.NumC.conv s (M w n) (U w x) t.signed (2 ^ t.bits)) := by
+  unfold Spec.NumC.conv
+  have hv : (if s then toInt (M w n) (U w x) else (U w x : Int)) = valOf s w x := by
+    unfold valOf; cases s
+    · rfl
+    · simp only [if_true]; rw [S_eq hx]
+  simp only [hv, rep_eq_decide]
+  change _ = Outcome.ok (if decide (repOf t.signed (B t.bits) (valOf s w x)) = true then
+    some (wrapU (B t.bits) (valOf s w x)) else none)
+  rcases toPrim_spec s t hw hn hk hdiv hx with ⟨h1, q, h2, h3, h4⟩ | ⟨h1, h2⟩
+  · rw [h2, if_pos (decide_eq_true h1), ← h4, ← val_eq_wrapU h3]
+  · rw [h2, if_neg (by simpa using h1)]
 
 end NumC
 end Bnum
